@@ -23,6 +23,8 @@ import Bng.Model.AcctSpec
     (reply refused / no reply); an accepted record the client got no acknowledgement for is printed with `~`.
     `@<marker>:deq|retry:<ans>` after start/interim/stop/shutdown = a step of the background processor executed
     while the call is parked in front of that marker (reported as inj=<marker>:<res>|<ord>|<ab>).
+    `@17:stop:<sid>:<cause>:<ans>` after interim = a complete StopSession call executed while the interim update
+    (its own goroutine in production) is parked in front of its send (reported as inj=17:ok|-|- / notfound|-|-).
     `!k~` = crash in the middle of the file write of the k-th step (crashed@<marker>~).
 
   The iteration orders of Go maps and of the drain goroutines (`ord=`, `q=`) are taken from the
@@ -111,11 +113,13 @@ structure Inj where
   mark : Nat
   retry : Bool
   ans : List Ans
+  /-- `some (sid, cause)`: not a processor step but a whole StopSession call (only inside an interim update) -/
+  stop : Option (Nat × Nat) := none
   order : List Nat := []
   done : Bool := false
   obs : String := "-"
 
-/-- strip trailing `@<marker>:deq|retry:<ans>` tokens -/
+/-- strip trailing `@<marker>:deq|retry:<ans>` and `@17:stop:<sid>:<cause>:<ans>` tokens -/
 def splitInject (toks : List String) : Option (List String × List Inj) :=
   let rec go (rev : List String) (acc : List Inj) : Option (List String × List Inj) :=
     match rev with
@@ -128,6 +132,11 @@ def splitInject (toks : List String) : Option (List String × List Inj) :=
             if (k == "deq" || k == "retry") && [1, 2, 3, 4, 5, 6, 17, 9, 19].contains m
             then go rest ({ mark := m, retry := k == "retry", ans := a } :: acc) else none
           | _, _ => none
+        | [m, "stop", sid, c, a] =>
+          match m.toNat?, parseTagged 's' sid, c.toNat?, parseAns a with
+          | some 17, some sid, some c, some a =>
+            go rest ({ mark := 17, retry := false, ans := a, stop := some (sid, c) } :: acc)
+          | _, _, _, _ => none
         | _ => none
       else some (rev.reverse, acc)
     | [] => some ([], acc)
@@ -245,8 +254,24 @@ partial def pfinish (σ : Acct.State) (answers : List Ans) (crashAt : Nat) : Acc
 def abSince (σ0 σ : Acct.State) : String :=
   joinOr ((σ.abandoned.take (σ.abandoned.length - σ0.abandoned.length)).reverse.map fun s => s!"s{s}")
 
-/-- one injected processor step, run to completion -/
+/-- run the API call in progress to completion, no crash, nothing injected -/
+partial def afinish (σ : Acct.State) (answers : List Ans) : Acct.State :=
+  match σ.vol.pc with
+  | none => σ
+  | some f =>
+    let (a, rest) := nextAns f answers
+    afinish (Acct.step σ (.tick a)) rest
+
+/-- one injected processor step (or StopSession call), run to completion -/
 def runInj (σ : Acct.State) (inj : Inj) : Acct.State × Inj :=
+  match inj.stop with
+  | some (sid, c) =>
+    let σ1 := Acct.step σ (.stop sid c)
+    if σ1.res == .dead || σ1.res == .busy then (σ1, { inj with done := true, obs := "dead|-|-" })
+    else
+      let σ2 := afinish σ1 inj.ans
+      (σ2, { inj with done := true, obs := s!"{resName σ2.res}|-|-" })
+  | none =>
   let σ1 := Acct.step σ (if inj.retry then .retry inj.order else .deq)
   if σ1.pres == .dead || σ1.pres == .busy then (σ1, { inj with done := true, obs := "dead|-|-" })
   else if σ1.pres == .empty then (σ1, { inj with done := true, obs := "empty|-|-" })
@@ -303,6 +328,32 @@ def runCall (σ0 : Acct.State) (op : Op) (k : CallKind) (answers : List Ans) (cr
       | .plain => (σ2, s!"{resName σ2.res} acc={acc}{showInj injs}")
       | .drain => (σ2, s!"ok acc={acc} ord={showOrd k σ2} dur={showDur σ2.dur}{showInj injs}")
       | .restart => (σ2, s!"ok acc={acc} q={joinOr (σ2.vol.queue.map fun i => s!"r{i}")}")
+
+/-- an `interim` operation of the trace: the interim update is put in flight, the step injected at its marker
+    (a processor step, or a complete StopSession) runs, then the update is sent and answered -/
+def runInterim (σ0 : Acct.State) (s : Nat) (answers : List Ans) (crashAt : Nat) (torn : Bool) (injs : List Inj) :
+    Acct.State × String :=
+  let σ1 := Acct.step σ0 (.interim s)
+  if σ1.ires == .dead || σ1.ires == .busy then (σ1, "dead")
+  else
+    match σ1.vol.ipc with
+    | none => (σ1, s!"{resName σ1.ires} acc=-{showInj injs}")
+    | some f =>
+      if crashAt = 1 && !torn then
+        let σ2 := Acct.step σ1 .crash
+        (σ2, s!"crashed@{markerOf f} acc=- ord=- ab=- dur={showDur σ2.dur}{showInj injs}")
+      else
+        let rec pick (pre : List Inj) : List Inj → Acct.State × List Inj
+          | [] => (σ1, pre.reverse)
+          | i :: rest =>
+            if i.mark = markerOf f && !i.done then
+              let (σ', i') := runInj σ1 i
+              (σ', pre.reverse ++ i' :: rest)
+            else pick (i :: pre) rest
+        let (σ2, injs) := pick [] injs
+        let (a, _) := nextAns f answers
+        let σ3 := Acct.step σ2 (.itick a)
+        (σ3, s!"{resName σ1.ires} acc={showAcc σ3 σ0.log.length}{showInj injs}")
 
 /-- a `deq` / `retry` operation of the trace: the processor step alone -/
 def runProc (σ0 : Acct.State) (op : Op) (answers : List Ans) (crashAt : Nat) : Acct.State × String :=
@@ -393,7 +444,7 @@ def step (st : St) (toks0 : List String) (impl : String) : St × LineResult :=
       | ["interim", s, a] =>
         match parseTagged 's' s, parseAns a with
         | some s, some ans =>
-          let (σ', obs) := runCall σ (.interim s) .plain ans crashAt torn injs
+          let (σ', obs) := runInterim σ s ans crashAt torn injs
           finishLine σ' obs [] []
         | _, _ => bad
       | ["stop", s, c, a] =>
